@@ -18,34 +18,50 @@ ENGINES = {
     "array-enumerator": "E4: small-scope exhaustive enumeration of arrays over a value alphabet x shape menu",
 }
 
-# id -> (engine, technique, level text, level note, design ref)
-CHECKS = {
-    "C01": (
-        "order-type-explorer",
-        "exhaustive order-type enumeration on the real code vs counting reference",
-        "Every dataset with at most 3+3 (quick) / 5+5 (thorough) scores in every tie pattern, every "
-        "(score_class, equal_class), easy counts 0..2/0..3, every input order/dtype/constructor and the "
-        "complete relative threshold alphabet (each score, its ulp neighbours, gap midpoints, beyond, +-inf) "
-        "is run through Scores.cm, the six rates, their aliases and pointwise_cm and compared cell by cell "
-        "with counting by the documented decision rule. Counts depend only on the order type, so within the "
-        "size bound this is a complete coverage statement, not a sample.",
-        "small-scope bound on the number of scores; NumPy searchsorted/sort are exercised, not trusted; "
-        "magnitudes in [-64,64]",
-        "DESIGN.md §4 C01",
-    ),
+TECH = {
+    "order-type-explorer": "exhaustive order-type (tie-pattern) enumeration on the real code vs plain-Python reference",
+    "rng-answer-tree": "exhaustive RNG answer-tree exploration (stateless DFS, leaf mass = 1) on the real code",
+    "op-sequence-graph": "explicit-state BFS over operation sequences to a fixpoint on live objects",
+    "array-enumerator": "small-scope exhaustive array enumeration on the real code vs exact reference formulas",
 }
+
+
+def load_checks():
+    sys.path.insert(0, HERE)
+    import importlib
+
+    out = {}
+    for f in sorted(os.listdir(os.path.join(HERE, "mc", "props"))):
+        if not (f.startswith("c") and f[1:3].isdigit() and f.endswith(".py")):
+            continue
+        m = importlib.import_module("mc.props." + f[:-3])
+        if getattr(m, "CLAIMED", True) is False:
+            continue
+        b = {t: m.bounds(t) for t in ("quick", "thorough")}
+        text = getattr(m, "LEVEL_TEXT", None) or (
+            f"Bounded exhaustive exploration on the implementation itself. {m.RULE}. Bounds - quick: "
+            f"{json.dumps(b['quick'])[:400]}; thorough: {json.dumps(b['thorough'])[:400]}. Within these bounds the "
+            "statement is a coverage statement (every enumerated state and transition was executed and judged), "
+            "not a sample."
+        )
+        note = getattr(m, "LEVEL_NOTE", None) or "; ".join(m.ASSUMPTIONS)
+        out[m.ID] = (m.ENGINE, getattr(m, "TECHNIQUE", TECH[m.ENGINE]), text, note, f"DESIGN.md §4 {m.ID}")
+    return out
+
 
 NOT_YET = "check not built yet (work in progress this round); no claim is made"
 
 
 def main():
+    global CHECKS
+    CHECKS = load_checks()
     props = [json.loads(l) for l in open(os.path.join(HERE, "properties.jsonl"))]
     commits = []
     checks = []
     na = []
     for p in props:
         pid = p["id"]
-        if pid in CHECKS and os.path.exists(os.path.join(HERE, "mc", "props", pid.lower() + ".py")):
+        if pid in CHECKS:
             eng, tech, text, note, ref = CHECKS[pid]
             checks.append(
                 {
